@@ -97,6 +97,13 @@ var serviceAnnotations = []annChoice{
 	{"dynamic-scaling", []string{"true"}},
 }
 
+var serviceAnnotationsByName = []annChoice{
+	{"secure-backends", []string{"true"}},
+	{"secure-crt-secret", []string{"b/tls1", "a/tls2", "tls2", "a/tls1"}},
+	{"secure-verify-ca-secret", []string{"b/ca", "a/ca", "ca"}},
+	{"auth-secret", []string{"b/auth", "a/auth", "auth"}},
+}
+
 var globalKeys = []annChoice{
 	{"drain-support", []string{"true", "false"}},
 	{"strict-host", []string{"true", "false"}},
@@ -161,6 +168,8 @@ type GenOptions struct {
 	QuiesceEvery int
 	NoTLS        bool
 	NoOps        bool
+	// NoDefaultBackend: no ingress declares spec.defaultBackend (the default host is shared by everybody)
+	NoDefaultBackend bool
 	// TLSSecrets overrides the secretName choices of spec.tls entries
 	TLSSecrets []string
 	// OwnHostAlways (sparse worlds): every rule and tls entry of an ingress uses the ingress' own host
@@ -784,7 +793,7 @@ func (g *gen) genIngress(ns, name string, created int, cur *networking.Ingress) 
 		}
 	}
 	var def *pathSpec
-	if g.chance(1, 8) {
+	if !g.opt.NoDefaultBackend && g.chance(1, 8) {
 		p := g.genPath(ns)
 		def = &p
 	}
@@ -884,7 +893,12 @@ func GenerateRun(seed uint64, opt GenOptions) (*World, []Op) {
 			g.ingKeys[i] = annChoice{Key: k.Key, Values: v}
 		}
 	}
-	g.svcKeys = g.subset(filterKeys(serviceAnnotations, opt.ServiceKeys, nil), 2)
+	svcTable := serviceAnnotations
+	if opt.ServiceKeys != nil {
+		// keys only a profile that names them gets (resource references on Service annotations, C09)
+		svcTable = append(append([]annChoice{}, serviceAnnotations...), serviceAnnotationsByName...)
+	}
+	g.svcKeys = g.subset(filterKeys(svcTable, opt.ServiceKeys, nil), 2)
 	if g.opt.Avoid["no_strict_host"] {
 		opt.ExcludeGlobalKeys = append(append([]string{}, opt.ExcludeGlobalKeys...), "strict-host")
 	}
